@@ -1,8 +1,13 @@
-(** C11 — property theorems (statements only; proofs are in C11/Proofs.v). *)
+(** C11 — Command channels deliver every message once, intact, within memory
+    bounds.  Property theorems only; every proof is [exact] of a lemma of
+    C11/Proofs.v (or Common/Buf.v).  Each [Theorem] here is one obligation of
+    the check; [Print Assumptions] is run on each by the audit stage. *)
 From Coq Require Import List Arith NArith Lia.
-From SV Require Import Common.Buf C11.Model.
+From SV Require Import Common.Buf C11.Model C11.Proofs.
 Import ListNotations.
 
+(** 1. The buffer discipline [position <= end <= capacity] survives every
+       buffer operation, for every argument. *)
 Theorem buffer_ops_keep_invariant :
   forall b n bs t,
     buf_ok b ->
@@ -12,3 +17,154 @@ Proof.
   intros b n bs t H.
   repeat split; auto using shift_ok, grow_ok, shrink_ok, consume_ok, fill_bytes_ok.
 Qed.
+
+(** 2. Memory ceiling and memory safety of the offsets: after ANY history of
+       peer / kernel / owner actions on a channel created with [init <= max],
+       both buffers satisfy [position <= end <= capacity] and neither capacity
+       exceeds [max] — whatever bytes the peer sent (malformed prefixes,
+       oversize declarations, garbage payloads included). *)
+Theorem capacity_bounded :
+  forall (decodable : list N -> bool) (init max : nat) (ops : list apiop),
+    init <= max ->
+    let c := fst (fold_left (api_step decodable) ops (new_chan init max, empty_sock)) in
+    buf_ok (front c) /\ buf_ok (back c) /\ cap (front c) <= max /\ cap (back c) <= max.
+Proof. exact capacity_bounded_lemma. Qed.
+
+(** 3. [readable] moves bytes from the socket to the buffer and does nothing
+       else: the concatenation (pending data ++ unread socket bytes) is
+       conserved — no byte lost, duplicated or reordered — for every state. *)
+Theorem readable_conserves_stream :
+  forall c s c' s' r,
+    chan_inv c -> readable c s = (c', s', r) ->
+    chan_inv c' /\ keeps_rest c c' /\
+    dat (front c') ++ inq s' = dat (front c) ++ inq s /\
+    ineof s' = ineof s /\ wsched s' = wsched s /\ outq s' = outq s.
+Proof. exact readable_spec. Qed.
+
+(** 4. Exactly-once, intact delivery of a complete frame: whenever the pending
+       data starts with a well-formed frame of a decodable payload within the
+       ceiling, [read_message] returns exactly that payload, removes exactly
+       that frame and leaves every following byte untouched. *)
+Theorem read_message_delivers_exactly :
+  forall (decodable : list N -> bool) c p rest c' r,
+    chan_inv c -> usize_ok c ->
+    dat (front c) = frame p ++ rest ->
+    delimiter_size + length p <= maxb c ->
+    decodable p = true ->
+    read_message decodable c = (c', r) ->
+    r = Ok p /\ chan_inv c' /\ keeps_rest c c' /\ dat (front c') = rest.
+Proof. exact read_message_delivers. Qed.
+
+(** 5. Malformed input yields an error and never wedges the channel:
+       (a) a payload that does not decode is an error, the frame is dropped,
+           the bytes behind it are intact and READABLE interest is re-armed;
+       (b) a declared length below the prefix size is an error and exactly the
+           8 prefix bytes are dropped;
+       (c) a declared length above the ceiling is an error and nothing
+           changes (terminal by design: the owner closes the channel). *)
+Theorem undecodable_frame_is_dropped :
+  forall (decodable : list N -> bool) c p rest c' r,
+    chan_inv c -> usize_ok c ->
+    dat (front c) = frame p ++ rest ->
+    delimiter_size + length p <= maxb c ->
+    decodable p = false ->
+    read_message decodable c = (c', r) ->
+    r = Err EInvalidProto /\ chan_inv c' /\ keeps_rest c c' /\ dat (front c') = rest /\ int_r c' = true.
+Proof. exact read_message_undecodable. Qed.
+
+Theorem short_prefix_is_dropped :
+  forall (decodable : list N -> bool) c c' r,
+    chan_inv c -> delimiter_size <= maxb c ->
+    delimiter_size <= length (dat (front c)) ->
+    (of_le_bytes (firstn delimiter_size (dat (front c))) < N.of_nat delimiter_size)%N ->
+    try_read decodable c = (c', r) ->
+    chan_inv c' /\ keeps_rest c c' /\ dat (front c') = skipn delimiter_size (dat (front c)) /\
+    r = Err EUnderDelim.
+Proof. exact try_read_short. Qed.
+
+Theorem oversize_prefix_is_error :
+  forall (decodable : list N -> bool) c c' r,
+    delimiter_size <= length (dat (front c)) ->
+    (N.of_nat (maxb c) < of_le_bytes (firstn delimiter_size (dat (front c))))%N ->
+    try_read decodable c = (c', r) -> c' = c /\ r = Err ETooLarge.
+Proof. exact try_read_oversize. Qed.
+
+(** 6. No BufferFull for a frame that fits (the defect repaired by the
+       [fix:] commit 72147ce): when the pending data is a strict prefix of a
+       frame within the ceiling, [read_message] answers NothingRead, loses
+       nothing, sets READABLE interest and always leaves room for at least one
+       more byte — so the owner's next [readable] makes progress. *)
+Theorem incomplete_frame_waits_with_room :
+  forall (decodable : list N -> bool) c c' r,
+    chan_inv c -> delimiter_size <= maxb c ->
+    incomplete c (dat (front c)) ->
+    read_message decodable c = (c', r) ->
+    r = Err ENothingRead /\ chan_inv c' /\ keeps_rest c c' /\ dat (front c') = dat (front c) /\
+    0 < avail_space (front c') /\ int_r c' = true.
+Proof. exact read_message_incomplete. Qed.
+
+(** 7. Any input at all: [read_message] keeps the invariant and only ever
+       drops a prefix of the pending bytes (never invents or reorders). *)
+Theorem read_message_total :
+  forall (decodable : list N -> bool) c c' r,
+    chan_inv c -> read_message decodable c = (c', r) ->
+    chan_inv c' /\ keeps_rest c c' /\ exists k, dat (front c') = skipn k (dat (front c)).
+Proof. exact read_message_inv. Qed.
+
+(** 8. Writer: a message is either framed and appended exactly, or refused
+       with MessageTooLarge leaving the pending output unchanged; refusal
+       happens only when the frame does not fit under the ceiling next to what
+       is already pending. *)
+Theorem write_message_exact :
+  forall c p c' r,
+    chan_inv c -> write_message c p = (c', r) ->
+    chan_inv c' /\ front c' = front c /\ maxb c' = maxb c /\ initb c' = initb c /\
+    ((r = Ok tt /\ dat (back c') = dat (back c) ++ frame p /\ int_w c' = true) \/
+     (r = Err ETooLarge /\ dat (back c') = dat (back c) /\
+      maxb c < length (dat (back c)) + length p + delimiter_size)).
+Proof. exact write_message_spec. Qed.
+
+(** 9. Flush: under ANY partial-write / would-block schedule the peer receives
+       a prefix of the pending output, in order, and exactly the rest stays
+       pending. *)
+Theorem writable_sends_prefix_in_order :
+  forall c s c' s' r,
+    chan_inv c -> writable c s = (c', s', r) ->
+    chan_inv c' /\ front c' = front c /\ maxb c' = maxb c /\ initb c' = initb c /\
+    inq s' = inq s /\ ineof s' = ineof s /\
+    exists k, outq s' = outq s ++ firstn k (dat (back c)) /\
+              dat (back c') = skipn k (dat (back c)).
+Proof. exact writable_spec. Qed.
+
+(* ---------------------------------------------------------------------- *)
+(** Non-vacuity: concrete reachable states meeting the hypotheses above. *)
+
+Definition ex_dec (p : list N) : bool := match p with 255%N :: _ => false | _ => true end.
+Definition ex_payload : list N := [10; 0; 16; 0; 26; 0]%N.
+
+(** a channel that has read one complete frame and half of the next *)
+Definition ex_state : chan * sock :=
+  fold_left (api_step ex_dec)
+    [AArrive (frame ex_payload ++ firstn 5 (frame ex_payload)); AEvent true false; AReadable]
+    (new_chan 16 64, empty_sock).
+
+Example ex_state_meets_delivery_hypotheses :
+  chan_inv (fst ex_state) /\ usize_ok (fst ex_state) /\
+  dat (front (fst ex_state)) = frame ex_payload ++ firstn 5 (frame ex_payload) /\
+  delimiter_size + length ex_payload <= maxb (fst ex_state) /\ ex_dec ex_payload = true.
+Proof.
+  split; [apply (api_history_inv ex_dec _ (new_chan 16 64, empty_sock)), new_chan_inv; lia|].
+  split; [unfold usize_ok; vm_compute; reflexivity|].
+  vm_compute. repeat split; lia.
+Qed.
+
+Example ex_incomplete_state :
+  let c := fst (read_message ex_dec (fst ex_state)) in
+  incomplete c (dat (front c)) /\ delimiter_size <= maxb c.
+Proof. vm_compute. split; [left|]; lia. Qed.
+
+Example ex_grows_and_shrinks :
+  let st := fold_left (api_step ex_dec)
+              [AArrive (frame (repeat 7%N 40)); AEvent true false; ATurn 50] (new_chan 16 64, empty_sock) in
+  cap (front (fst st)) = 16 /\ dat (front (fst st)) = [].
+Proof. vm_compute. split; reflexivity. Qed.
